@@ -203,3 +203,23 @@ func init() {
 		},
 	})
 }
+
+func init() {
+	register(&Property{
+		ID: "C22",
+		Explanation: "Decides structural necessary conditions of 'the grammar compiler never crashes and reports in-range diagnostics': EXIT: the process-exit/panic sites reachable (call graph from compiler.Compile, restricted to packages the compiler links) equal an audited table, each line with the invariant that keeps grammar text away from it; a new site fails as unaudited. STAGEGATE: each pipeline stage of compileParser runs only if the previous one returned no error. " +
+			"CYCLE: no unbounded recursion over cyclic token sets. ESCAPE: validation data is not kept in a recycled scratch buffer. CURSOR: the grammar lexer (parsers/tm) never reads l.source past its end and never advances the cursor unguarded. UNITS(bytes): no rune-counting value flows into SourceRange offsets/columns. GUARD(optimize-la), DTX(rune-fold): the obligations cited by audited exit sites. " +
+			"Not decided: index-out-of-range and nil dereference on malformed models in general, line/column consistency beyond the unit rule.",
+		Rules: []string{"EXIT", "STAGEGATE", "CYCLE", "ESCAPE", "CURSOR", "UNITS(bytes)", "GUARD(optimize-la)", "DTX(rune-fold)"},
+		Run: func(c *Ctx) {
+			ruleEXIT(c)
+			ruleSTAGEGATE(c)
+			ruleCYCLE(c)
+			ruleESCAPE(c, map[string]bool{"syntax": true, "compiler": true, "lalr": true, "lex": true})
+			ruleCURSOR(c)
+			ruleRANGEUNITS(c)
+			ruleCOMPILEORDER(c)
+			ruleRUNEFOLD(c)
+		},
+	})
+}
